@@ -566,6 +566,13 @@ func (this *badgerWAL) reset(entries []raftpb.Entry) error {
 	if err := this.deleteEntriesFromIndex(batch, 0); err != nil {
 		return err
 	}
+	// Hard state and snapshot belong to the group as well
+	if err := batch.Delete(this.hardStateKey()); err != nil {
+		return err
+	}
+	if err := batch.Delete(this.snapshotKey()); err != nil {
+		return err
+	}
 
 	for _, entry := range entries {
 		entryData, err := entry.Marshal()
